@@ -15,6 +15,10 @@ def check (_lineNo : Nat) (line : String) : Verdict :=
     else match nat? n with
       | some n => if n > 1 then .oracle s!"{n} datagrams in answer to {what}" else .ok
       | none => .bad "c01 count"
+  | ["wedge", script, "=>", alive, known] =>
+    if alive != "1" then .oracle s!"agent died on duplicated / late / foreign responses (script {script})"
+    else if known != "1" then .oracle s!"after duplicated / late / foreign responses (script {script}) a valid request on the association was not processed normally: its receive loop was wedged and the peer dropped"
+    else .ok
   | ["other", ok] => if ok = "1" then .ok else .oracle "a valid Association Setup Request on another association was not processed normally"
   | "raw" :: _i :: "=>" :: alive :: hb :: crash =>
     if alive != "1" then .oracle s!"agent died on the raw datagram stream: {" ".intercalate crash}"
